@@ -174,11 +174,17 @@ def c09(tier, seed):
 @plan("C14")
 def c14(tier, seed):
     jobs = w3_jobs(seed) + sched_jobs(tier, seed, gen=dict(nmax=8, mc_max=4), faults=True, dfs=True, dfs_faults=True, scale=0.7)
+    # identification clause for every kind of node (operators incl. reflected ones, methods, and_/or_/not_, nested DAG nodes, ...)
+    jobs += [dict(kind="c14_loc", n_cases=(120 if tier == "quick" else 1200), **_seeds(seed + 60, k)) for k in range(2 if tier == "quick" else 8)]
     return dict(
         jobs=jobs, level="fault_enumeration",
-        rule=RULE_SCHED + RULE_W3 + "; fault plans = 1 or 2 call sites raising a marked exception (any resource); on the small shapes every "
-        "single-fault position x every completion order is enumerated",
-        assumptions=ASSUME_COMMON, required_reach=["c14_raised", "c14_descendant_checks", "c14_failure_deliveries"],
+        rule=RULE_SCHED + RULE_W3 + "; fault plans = 1 or 2 call sites raising a marked exception (any resource; exceptions with one, several "
+        "and no args, messages full of format directives); on the small shapes every single-fault position x every completion order is "
+        "enumerated; plus one-statement-per-line programs (plain calls in every declaration form, binary / reflected / unary operator "
+        "nodes, and_/or_/not_, decorated methods, nested DAG nodes; call, executor, deep copy, after config_from_dict) where each node in "
+        "turn fails and the exception must name exactly that node and its exact file:line and carry the injected exception as cause",
+        assumptions=ASSUME_COMMON, required_reach=["c14_raised", "c14_descendant_checks", "c14_failure_deliveries", "c14_loc_messages_checked",
+                                                   "c14_loc_kind_reflected", "c14_loc_kind_meth", "c14_loc_kind_bool", "c14_loc_kind_un"],
         parallel=8 if tier == "quick" else 16,
     )
 
